@@ -38,7 +38,8 @@ for sd in seeded/*${pat}*/; do
   fi
   out=$(./bin/gocv check "$prop" -repo "$d/repo" -out "$d/out" 2>&1)
   if echo "$out" | grep -q "^VIOLATION property=$prop"; then
-    echo "caught   seeded/$id ($prop)"; ok=$((ok+1))
+    by=$(echo "$out" | sed -n 's/^  obligation \([^ ]*\) .*/\1/p; s/^  tool error: \(.*\)/tool-error: \1/p' | sort -u | head -3 | tr '\n' ' ')
+    echo "caught   seeded/$id ($prop) by $by"; ok=$((ok+1))
   elif [ -f "$sd/EXPECTED-MISS" ]; then
     echo "expected-miss seeded/$id ($prop): $(head -1 $sd/EXPECTED-MISS)"
   else
